@@ -85,6 +85,9 @@ THEOREMS = [
     "VK.stvStep_mentions",
     "VK.stvRun_mentions",
     "VK.C08_alaska_cand_order",
+    "VK.C08_stv_rep",
+    "VK.rankedWF_removeCand",
+    "VK.C08_alaska_rep",
 ]
 RULE = ("cases = deterministic configuration of every ranking / scoring / pairwise rule (as in C10) on a random profile; "
         "five transformations of the input: rename the candidates by a random bijection into a second name pool (sort "
